@@ -22,8 +22,8 @@ def ctr_factory_contract(name, route, cl=None):
     bs, alg = cf.BLOCK[name], cf.ALG[name]
     P = 'result._state._raw_pointer'
     has_key = "'key' in kwargs"
-    keyok = "(%s and spec.modes.key_len_ok(%d, len(kwargs['key'])))" % (has_key, alg)
-    common = {'key': "%s.g_key == old(bytes(kwargs['key'])) and %s.g_alg == %d" % (P, P, alg),
+    keyok = "(%s and %s)" % (has_key, cf.keyok_expr(name, "kwargs['key']"))
+    common = {'key': "%s.g_key == old(%s) and %s.g_alg == %d" % (P, cf.key_value_expr(name, "kwargs['key']"), P, alg),
               'block_size': 'result.block_size == %d' % bs,
               'valid': 'valid(result)'}
     if route == 'nonce':
@@ -48,7 +48,7 @@ def ctr_factory_contract(name, route, cl=None):
         })
         return Contract(Q, params={'factory': 'module:Crypto.Cipher.' + name, 'kwargs': shapes},
                         raises={'TypeError': ('only_if', tfault), 'ValueError': ('only_if', vfault)}, ensures=ensures, modifies=['kwargs'],
-                        opaque=['spec.modes.key_len_ok'], options={'pow2_consts': True})
+                        opaque=cf.KEY_OPAQUE, options={'pow2_consts': True})
     if route == 'both':
         # counter= together with nonce= / initial_value=: refused
         shapes = cf.dict_shapes([('key', ['bytes']), ('counter', ['dict(counter_len:int,prefix:bytes,suffix:bytes,initial_value:int,little_endian:bool)'])],
@@ -56,7 +56,7 @@ def ctr_factory_contract(name, route, cl=None):
         return Contract(Q, params={'factory': 'module:Crypto.Cipher.' + name, 'kwargs': shapes},
                         requires=["'nonce' in kwargs or 'initial_value' in kwargs", keyok],
                         raises={'TypeError': ('iff', "'counter' in kwargs and ('nonce' in kwargs or 'initial_value' in kwargs)")},
-                        ensures={'unreachable': 'False'}, modifies=['kwargs'], opaque=['spec.modes.key_len_ok'])
+                        ensures={'unreachable': 'False'}, modifies=['kwargs'], opaque=cf.KEY_OPAQUE)
     if route == 'malformed':
         # a counter object that lacks one of the five entries: TypeError
         base = [('counter_len', 'int'), ('prefix', 'bytes'), ('suffix', 'bytes'), ('initial_value', 'int'), ('little_endian', 'bool')]
@@ -65,7 +65,7 @@ def ctr_factory_contract(name, route, cl=None):
             alts.append('dict(key:bytes,counter:dict(%s))' % ','.join('%s:%s' % kt for j, kt in enumerate(base) if j != i))
         return Contract(Q, params={'factory': 'module:Crypto.Cipher.' + name, 'kwargs': '|'.join(alts)}, requires=[keyok],
                         raises={'TypeError': ('iff', "len(kwargs['counter']) < 5")}, ensures={'unreachable': 'False'}, modifies=['kwargs'],
-                        opaque=['spec.modes.key_len_ok'])
+                        opaque=cf.KEY_OPAQUE)
     ctr = "kwargs['counter']"
     if route == 'counter_faults':
         # counter= with a missing key / an unknown parameter: refused before the counter object is looked at (any counter_len)
@@ -73,7 +73,7 @@ def ctr_factory_contract(name, route, cl=None):
         shapes = '|'.join(['dict(counter:%s)' % cd, 'dict(counter:%s,key:bytes,bogus:int)' % cd, 'dict(counter:%s,bogus:int)' % cd])
         return Contract(Q, params={'factory': 'module:Crypto.Cipher.' + name, 'kwargs': shapes}, requires=["not %s or %s" % (has_key, keyok)],
                         raises={'TypeError': ('iff', "'key' not in kwargs or 'bogus' in kwargs")}, ensures={'unreachable': 'False'},
-                        modifies=['kwargs'], opaque=['spec.modes.key_len_ok'])
+                        modifies=['kwargs'], opaque=cf.KEY_OPAQUE)
     # route == 'counter': a Crypto.Util.Counter object (the dict Counter.new returns) with counter_len == cl
     cd = 'dict(counter_len:const:%d,prefix:bytes,suffix:bytes,initial_value:int,little_endian:bool)' % cl
     shapes = cf.dict_shapes([('counter', [cd]), ('key', ['bytes'])], [])
@@ -94,7 +94,7 @@ def ctr_factory_contract(name, route, cl=None):
                     requires=["0 <= %s['initial_value'] and %s['initial_value'] < %d" % (ctr, ctr, 256 ** cl)],
                     raises={'TypeError': ('only_if', tfault), 'ValueError': ('only_if', vfault)}, ensures=ensures, modifies=['kwargs'],
                     options={'max_inline_depth': 40},
-                    opaque=['spec.modes.key_len_ok'])
+                    opaque=cf.KEY_OPAQUE)
 
 
 def digits_lemma_contract(n):
@@ -152,20 +152,25 @@ def units(prop, tier):
     if prop in ('C02', 'C09', 'C10', 'C11', 'C17', 'C19'):
         for op in ('encrypt', 'decrypt'):
             out.append(pyvc_unit(prop, 'mode.ctr.%s' % op, lambda: registry('rw'), [q(op)]))
+    if prop in ('C09', 'C10', 'C17'):
+        out.append(pyvc_unit(prop, 'mode.ctr.readonly_output', lambda: registry('ro'), [q('encrypt'), q('decrypt')]))
     if prop in ('C02', 'C11', 'C17'):
         out.append(pyvc_unit(prop, 'mode.ctr.init', lambda: registry('init'), [q('__init__')]))
+    if prop in ('C02', 'C11'):
         for name in ('AES', 'DES3'):
-            out.append(pyvc_unit(prop, 'mode.ctr.factory.%s.nonce' % name, lambda name=name: registry('factory', name, 'nonce'), [Q], weight=3))
+            out.append(pyvc_unit(prop, 'mode.ctr.factory.%s.nonce' % name, lambda name=name: registry('factory', name, 'nonce'), [Q], weight=4))
         out.append(pyvc_unit(prop, 'mode.ctr.factory.AES.both', lambda: registry('factory', 'AES', 'both'), [Q]))
         out.append(pyvc_unit(prop, 'mode.ctr.factory.AES.malformed', lambda: registry('factory', 'AES', 'malformed'), [Q]))
-        cls16 = [0, 1, 4, 8, 16, 17] if tier == 'quick' else list(range(0, 18))
-        for cl in cls16:
-            out.append(pyvc_unit(prop, 'mode.ctr.factory.AES.counter%02d' % cl, lambda cl=cl: registry('factory', 'AES', 'counter', cl), [Q], weight=2))
+        out.append(pyvc_unit(prop, 'mode.ctr.factory.AES.counter_faults', lambda: registry('factory', 'AES', 'counter_faults'), [Q]))
+        # Counter route: exhaustive in counter_len (0 and 17 = refused geometries); unbounded in prefix, suffix, initial value
+        for cl in ([0, 1, 4, 8, 16, 17] if tier == 'quick' else list(range(0, 18))):
+            out.append(pyvc_unit(prop, 'mode.ctr.factory.AES.counter%02d' % cl, lambda cl=cl: registry('factory', 'AES', 'counter', cl), [Q], weight=3))
         for cl in ([4, 8] if tier == 'quick' else list(range(0, 10))):
             out.append(pyvc_unit(prop, 'mode.ctr.factory.DES3.counter%02d' % cl, lambda cl=cl: registry('factory', 'DES3', 'counter', cl), [Q], weight=2))
-    if prop in ('C11', 'C02'):
+        # spec-level lemma: the digit-by-digit counter field of the Counter route == I2OSP / I2LE, per length
+        for n in ([0, 1, 4, 8, 16] if tier == 'quick' else list(range(0, 17))):
+            out.append(pyvc_unit(prop, 'counter.digits_lemma.n%02d' % n, lambda n=n: registry('digits', cl=n), ['spec.modes.lemma_digits']))
         out.append(pyvc_unit(prop, 'counter.new.unaligned', lambda: registry('counter_new'), [CN]))
-        nb = [0, 8, 32, 64, 128, -8] if tier == 'quick' else [8 * k for k in range(-1, 18)]
-        for n in nb:
+        for n in ([0, 8, 32, 64, 128, -8] if tier == 'quick' else [8 * k for k in range(-1, 18)]):
             out.append(pyvc_unit(prop, 'counter.new.nbits%s' % n, lambda n=n: registry('counter_new', nbits=n), [CN]))
     return out
